@@ -1,8 +1,9 @@
 """C12 — assemble / clear / backport / delete / write round trips of `Mesh`.
 
-Cases are random histories over {add, delete, assemble, clear, backport, move vertex, modify_patch,
-set_default_patch, merge_patches, write} on 1..5 single-cell hexahedra of a jittered lattice (random
-corner numbering, patches, projections, arcs, count-only chops that agree on shared edges).
+Cases are random histories over {add, delete, assemble, clear, backport, move / translate vertex, modify_patch,
+set_default_patch, merge_patches, add_geometry, write} on 1..5 single-cell hexahedra of a lattice (random
+corner numbering, patches, projections, arc / spline / polyLine / project edges, count-only chops that agree
+on shared edges).  The model works on the exact rational coordinates and prints them with `%.8f`.
 
 * correspondence: the history is replayed by the Lean state machine `CBV.C12` (c12.hist); every write
   (canonical form of the file, or the error) and every backport (corner points of all operations) is compared;
@@ -135,6 +136,16 @@ def build_op(spec: dict, positions: List[List[float]], chops: List[List[List]]):
             op.top_face.add_edge(i, cb.Arc(point))
         else:
             op.add_side_edge(i, cb.Arc(point))
+    for slot, (kind, data) in spec.get("curved", {}).items():
+        # spline / polyLine through points, an edge projected to surfaces
+        edge = {"spline": cb.Spline, "polyLine": cb.PolyLine, "project": cb.Project}[kind](data)
+        i = int(slot[1])
+        if slot[0] == "b":
+            op.bottom_face.add_edge(i, edge)
+        elif slot[0] == "t":
+            op.top_face.add_edge(i, edge)
+        else:
+            op.add_side_edge(i, edge)
     for axis, chs in enumerate(chops):
         for ratio, count in chs:
             op.chop(axis, count=count, length_ratio=ratio)
@@ -264,15 +275,17 @@ class C12(core.Check):
         "least one successful write; distinct = different history or model."
     )
     assumptions = [
-        "points are abstracted to location ids: distinct points of a case are at least 1e-3 apart (TOL = 1e-7)",
+        "points are exact rational coordinates; same vertex iff equal coordinates: points closer than TOL are sent as one triple, distinct points of a case are at least 1e-3 apart (TOL = 1e-7)",
         "every operation carries chops on all three axes (count-only); propagation between blocks is C01/C02/C04",
         "python list/OrderedDict/set semantics of the modelled methods are validated by correspondence, not verified",
         "arc edges of the cases are valid (end points distinct, not collinear)",
     ]
     partial_note = (
-        "theorems are about the abstract state machine CBV.C12 (count-only chops on every axis, arcs as the only curved "
-        "edges, no geometry dictionary, flat depot); float formatting, graded chops and propagation are outside the model "
-        "and only covered by the byte-for-byte oracle on the generated histories"
+        "theorems are about the state machine CBV.C12 (rational coordinates with %.8f rendering, arc / spline / polyLine / project edges, "
+        "entities, geometry list, statements of clear / backport / write tied to the source by ast); vertex identity is exact equality "
+        "of coordinates (implementation: within TOL), chops are count-only on every axis, origin / angle / curve edges, size-based or "
+        "graded chops, propagation and an exception inside assemble() are outside the model and only covered by the byte-for-byte "
+        "oracle on the generated histories"
     )
 
     # ------------------------------------------------------------------ generators
@@ -321,6 +334,28 @@ class C12(core.Check):
                     mid[off] += frame[1] * (rng.choice((-1, 1)) * (0.0625 + 0.015625 * rng.randrange(4)) + 0.001 * (i + 1))
                     arcs[slot] = [round(x, 6) for x in mid]
                 spec["arcs"] = arcs
+            if rng.random() < 0.3:
+                # the other kinds of curved edges whose written form does not depend on the end points
+                curved = {}
+                pos = corner_positions(spec)
+                free = [sl for sl in SLOTS if sl not in spec.get("arcs", {})]
+                for slot in rng.sample(free, rng.randint(1, 2)):
+                    kind = rng.choice(["spline", "polyLine", "project"])
+                    if kind == "project":
+                        curved[slot] = [kind, rng.sample(["g0", "g1", "g2"], rng.randint(1, 2))]
+                        continue
+                    a, b = SLOT_CORNERS[slot]
+                    along = max(range(3), key=lambda d: abs(pos[a][d] - pos[b][d]))
+                    off = (along + 1 + rng.randrange(2)) % 3
+                    pts = []
+                    n_pts = rng.randint(2, 3)
+                    for k in range(n_pts):
+                        t = (k + 1) / (n_pts + 1)
+                        q = [pos[a][d] + t * (pos[b][d] - pos[a][d]) for d in range(3)]
+                        q[off] += frame[1] * (0.03125 * (1 + k % 2) + 0.001 * (i + 1))
+                        pts.append([round(x, 6) for x in q])
+                    curved[slot] = [kind, pts]
+                spec["curved"] = curved
             if rng.random() < 0.2:
                 spec["zone"] = rng.choice(["z1", "z2"])
             ops.append(spec)
@@ -792,25 +827,27 @@ class C12(core.Check):
 
     # ------------------------------------------------------------------ model
     def _tables(self, case: dict, impl: Any):
-        """location ids and arc tokens, from the case (and the positions the moves name) only"""
-        loc: Dict[str, int] = {}
+        """canonical coordinates: every position the case names (corners of the operations, targets of the moves) is sent to
+        the model as the exact rational value of the first float triple seen with the same `%.8f` image, so that points
+        the implementation merges (closer than TOL) are equal in the model"""
+        canon: Dict[str, List[float]] = {}
 
-        def lid(p) -> int:
-            return loc.setdefault(fmt(p), len(loc))
+        def cp(p) -> List[float]:
+            return canon.setdefault(fmt(p), [float(x) for x in p])
 
         for spec in case["ops"]:
             for p in corner_positions(spec):
-                lid(p)
+                cp(p)
         for st, o in zip(case["steps"], (impl or {}).get("obs", [None] * len(case["steps"]))):
             if st[0] == "mv":
-                lid(st[2])
-            if st[0] in ("nudge", "tr") and isinstance(o, dict) and "to" in o:
-                lid(o["to"])
-        arcs: Dict[str, str] = {}
-        for spec in case["ops"]:
-            for slot, point in sorted(spec.get("arcs", {}).items()):
-                arcs.setdefault(fmt(point), f"a{len(arcs)}")
-        return loc, arcs
+                cp(st[2])
+            if st[0] == "nudge" and isinstance(o, dict) and "to" in o:
+                cp(o["to"])
+        return canon, None
+
+    @staticmethod
+    def _pt(p) -> str:
+        return ",".join(core.rat(float(x)) for x in p)
 
     def requests(self, case: dict, impl: Any) -> List[str]:
         if case["kind"] == "prop":
@@ -822,7 +859,7 @@ class C12(core.Check):
         obs = (impl or {}).get("obs", [None] * len(case["steps"]))
 
         def op_fields(spec: dict) -> str:
-            cs = ",".join(str(loc[fmt(p)]) for p in corner_positions(spec))
+            cs = ";".join(self._pt(loc[fmt(p)]) for p in corner_positions(spec))
             pat = spec.get("patches", {})
             ps = ",".join(pat.get(s, "-") for s in ["bottom", "top", "front", "right", "back", "left"])
             prj = spec.get("proj", {})
@@ -830,7 +867,19 @@ class C12(core.Check):
             cp = spec.get("cproj", {})
             cps = ",".join("+".join(cp[str(c)]) if str(c) in cp else "-" for c in range(8))
             ar = spec.get("arcs", {})
-            es = ",".join(arcs[fmt(ar[s])] if s in ar else "-" for s in SLOTS)
+            cu = spec.get("curved", {})
+
+            def edge_field(slot: str) -> str:
+                if slot in ar:
+                    return "arc:" + self._pt(ar[slot])
+                if slot in cu:
+                    kind, data = cu[slot]
+                    if kind == "project":
+                        return "project:" + "+".join(data)
+                    return kind + ":" + "|".join(self._pt(q) for q in data)
+                return "-"
+
+            es = ";".join(edge_field(s) for s in SLOTS)
             chops = local_chops(spec, case["counts"])
             if "nochop" in spec:
                 chops[spec["nochop"]] = []
@@ -847,9 +896,13 @@ class C12(core.Check):
                     toks.append("add!" + op_fields(case["ops"][members[0]]))
                 else:
                     toks.append("ent@" + "@".join(op_fields(case["ops"][i]) for i in members))
-            elif st[0] in ("nudge", "tr"):
-                to = loc[fmt(o["to"])] if isinstance(o, dict) and "to" in o else 0
-                toks.append(f"mv!{st[1]}!{to}")
+            elif st[0] == "nudge":
+                # move_to(position computed by the harness from the observed old position)
+                to = loc[fmt(o["to"])] if isinstance(o, dict) and "to" in o else [0.0, 0.0, 0.0]
+                toks.append(f"mv!{st[1]}!{self._pt(to)}")
+            elif st[0] == "tr":
+                # Vertex.translate(delta): the model adds the displacement itself
+                toks.append(f"tr!{st[1]}!{self._pt(st[2])}")
             elif st[0] == "mvto":
                 toks.append(f"mvto!{st[1]}!{st[2]}")
             elif st[0] == "del":
@@ -857,7 +910,7 @@ class C12(core.Check):
             elif st[0] in ("asm", "clr", "bkp", "wr"):
                 toks.append(st[0])
             elif st[0] == "mv":
-                toks.append(f"mv!{st[1]}!{loc[fmt(st[2])]}")
+                toks.append(f"mv!{st[1]}!{self._pt(loc[fmt(st[2])])}")
             elif st[0] == "mod":
                 s = "-" if st[3] is None else ("0" if not st[3] else "|".join(x.replace(" ", "~") for x in st[3]))
                 toks.append(f"mod!{st[1]}!{st[2]}!{s}")
@@ -870,28 +923,32 @@ class C12(core.Check):
         return ["c12.hist " + " ".join(toks)]
 
     @staticmethod
-    def canonical(parsed: dict, loc: Dict[str, int], arcs: Dict[str, str]) -> str:
+    def canonical(parsed: dict, loc=None, arcs=None) -> str:
+        """the file as the token list the model renders: per section its name, the entries in order, `;`; coordinates are
+        the `%.8f` text of the file itself"""
+
         def nats(xs):
             return "-".join(str(x) for x in xs)
 
-        vs = []
-        for p, proj in parsed["vertices"]:
-            l = loc.get(p, f"?{p}")
-            vs.append(f"{l}:{'+'.join(proj)}" if proj else f"{l}")
+        def sec(name, entries):
+            return [name] + list(entries) + [";"]
+
+        vs = [p + (" (" + " ".join(proj) + ")" if proj else "") for p, proj in parsed["vertices"]]
         bs = [f"{nats(b['verts'])}:{b['zone']}:{nats(b['counts'])}:{b['kind']},{','.join(b['grading'])}" for b in parsed["blocks"]]
-        es = []
-        for kind, a, b, rest in parsed["edges"]:
-            tok = arcs.get(rest, f"?{rest}") if kind == "arc" else f"?{kind}"
-            es.append(f"{min(a, b)}-{max(a, b)}:{tok}")
+        es = [f"{kind} {min(a, b)}-{max(a, b)} {rest}" for kind, a, b, rest in parsed["edges"]]
         fs = [f"{nats(v)}:{l}" for v, l in parsed["faces"]]
         ps = [
             f"{p['name']}:{p['kind']}:{'|'.join(s.replace(' ', '~') for s in p['settings'])}:{','.join(nats(s) for s in p['sides'])}"
             for p in parsed["patches"]
         ]
-        d = ":".join(parsed["default"]) if parsed["default"] else ""
         ms = [f"{a}-{b}" for a, b in parsed["merged"]]
         gs = [f"{n}:{'|'.join(x.replace(' ', '~') for x in props)}" for n, props in parsed.get("geometry", [])]
-        return f"G[{';'.join(gs)}]V[{';'.join(vs)}]B[{';'.join(bs)}]E[{';'.join(es)}]F[{';'.join(fs)}]P[{';'.join(ps)}]D[{d}]M[{';'.join(ms)}]"
+        toks = (sec("geometry", gs) if gs else []) + sec("vertices", vs) + sec("blocks", bs) + sec("edges", es) + sec("faces", fs)
+        toks += sec("boundary", ps)
+        if parsed["default"]:
+            toks += sec("defaultPatch", [":".join(parsed["default"])])
+        toks += sec("mergePatchPairs", ms)
+        return "\t".join(toks)
 
     ERR = {"RuntimeError": "err:notAssembled", "UndefinedGradingsError": "err:undefined"}
 
@@ -923,13 +980,37 @@ class C12(core.Check):
                     for s in case["steps"][: n + 1]:
                         if s[0] == "add":
                             depot += entities_of(case)[s[1]]
-                    want = "ok:" + ";".join(
-                        f"{i}=" + ",".join(str(loc.get(fmt(p), "?" + fmt(p))) for p in o["ok"][str(i)]) for i in depot
-                    )
+                    why = self._compare_depot(a, depot, o["ok"])
+                    if why:
+                        return f"call {n} (backport): {why}"
+                    want = a
                 if a != want:
                     return f"call {n} (backport): implementation {want[:500]} / model {a[:500]}"
             elif a != ".":
                 return f"call {n} ({st[0]}): model observation {a}"
+        return None
+
+    @staticmethod
+    def _compare_depot(ans: str, depot: List[int], points: dict) -> Optional[str]:
+        """the corner points of every depot operation after backport(): model (exact rationals) vs implementation (floats)"""
+        from fractions import Fraction
+
+        if not ans.startswith("ok:"):
+            return f"implementation back-ported, model answered {ans[:80]}"
+        items = [x for x in ans[3:].split(";") if x]
+        if len(items) != len(depot):
+            return f"model lists {len(items)} depot operations, the depot holds {len(depot)}"
+        for item, i in zip(items, depot):
+            oid, _, pts = item.partition("=")
+            if int(oid) != i:
+                return f"depot order: model has operation {oid} where the implementation has {i}"
+            mp = [[float(Fraction(c)) for c in q.split(",")] for q in pts.split("|")]
+            ip = points[str(i)]
+            if len(mp) != len(ip):
+                return f"operation {i}: {len(mp)} points in the model"
+            for c, (q, r) in enumerate(zip(mp, ip)):
+                if max(abs(a - b) for a, b in zip(q, r)) > 1e-9:
+                    return f"operation {i} corner {c}: implementation {r} / model {q}"
         return None
 
     @staticmethod
@@ -1017,6 +1098,23 @@ class C12(core.Check):
                 out.append({"site": "Mesh.write:unparsable-file", "what": f"call {n}: {e}"})
                 since, last_text = [], text
                 continue
+            # the sections come in the order a blockMeshDict of classy_blocks has: geometry, vertices, blocks, edges, faces,
+            # boundary, defaultPatch, mergePatchPairs
+            where = [
+                (m.start(), name)
+                for name in ("geometry", "vertices", "blocks", "edges", "faces", "boundary", "defaultPatch", "mergePatchPairs")
+                for m in [re.search(r"^" + name + r"\n[({]\n", text, re.M)]
+                if m
+            ]
+            if [w[0] for w in where] != sorted(w[0] for w in where):
+                out.append(
+                    {
+                        "site": "Mesh.write:section-order",
+                        "what": f"call {n}: sections written in the order {[w[1] for w in sorted(where)]}",
+                        "observed": [w[1] for w in sorted(where)],
+                        "expected": [w[1] for w in where],
+                    }
+                )
             if [[k, v] for k, v in sh["geometry"].items()] != parsed["geometry"]:
                 out.append(
                     {
